@@ -196,8 +196,11 @@ def wrapper_cases(seed, tier, real_t=np.float64):
             "advection_timestep_euler_forward_eno3_2d",
             ref=lambda b, p=p: {"field": _with_inner(b["field"], b["field"][2:-2, 2:-2] - p * R.eno3_divergence(b["field"], b["velocity"]), 2)})
         # boundary-zone damping
-        for w in ([0, 1, 2] if tier == "quick" else [0, 1, 2, 3, 4, 5, 6]):
-            ny2, nx2 = _shape(r, 2 * max(w, 2) + 1, 2 * max(w, 2) + 5)
+        # (width, shape): ordinary grids, and grids narrower than two zone widths along one or both axes (front and back zones overlap)
+        damp_cases = [(w, None) for w in ([0, 1, 2] if tier == "quick" else [0, 1, 2, 3, 4, 5, 6])]
+        damp_cases += [(3, (4, 9)), (3, (9, 5))] if tier == "quick" else [(3, (4, 9)), (3, (9, 5)), (4, (6, 16)), (4, (12, 4)), (5, (7, 7)), (2, (3, 10))]
+        for w, shp in damp_cases:
+            ny2, nx2 = shp if shp is not None else _shape(r, 2 * max(w, 2) + 1, 2 * max(w, 2) + 5)
             dx = real_t(1.0 / nx2)
             x = ((np.arange(nx2) + 0.5) * dx).astype(real_t)
             y = ((np.arange(ny2) + 0.5) * dx).astype(real_t)
